@@ -16,6 +16,7 @@ package message
 
 import (
 	"bytes"
+	"io"
 	"sort"
 	"time"
 
@@ -171,6 +172,14 @@ func DecodeFrame(buf []byte) (out Frame, err error) {
 	// We need to allocate, given that the unmarshal is now no-copy. By using 'nil' as destination
 	// we make sure that the underlying buffer is calculated based on the decoded length.
 	if buf, err = snappy.Decode(nil, buf); err == nil {
+
+		// Every message takes at least four bytes (three lengths and the ttl): a frame which
+		// announces more messages than that would end in EOF anyway, and must not size the
+		// allocation of the slice.
+		if n, err := binary.NewDecoder(bytes.NewReader(buf)).ReadUvarint(); err == nil && n > uint64(len(buf)/4) {
+			return nil, io.EOF
+		}
+
 		err = binary.Unmarshal(buf, &out)
 	}
 	return
